@@ -17,13 +17,14 @@ Ec(e) == [F |-> e.ec[1], C |-> e.ec[2], S |-> e.ec[3], R |-> e.ec[4], E |-> e.ec
 \* C03: same segments in the same order, same non-empty leaves in the same order; a failure to place is an exception
 SameContent(e, a, b) ==
   /\ Len(a) = Len(b)
-  /\ \A i \in 1..Len(a) : LET x == ParseSeg(a[i], Ec(e)) y == ParseSeg(b[i], Ec(e)) IN
-                            x.name = y.name /\ LeafSeq(x) = LeafSeq(y)
+  /\ \A i \in 1..Len(a) : \/ a[i] = b[i]        \* (identical text: nothing to parse)
+                          \/ LET x == ParseSeg(a[i], Ec(e)) y == ParseSeg(b[i], Ec(e)) IN
+                               x.name = y.name /\ LeafSeq(x) = LeafSeq(y)
 \* index of the first line whose name or leaf sequence differs (0: none; Len+1: a different number of lines)
 FirstBadLine(e, a, b) ==
   IF Len(a) # Len(b) THEN Len(a) + 1
-  ELSE LET bad == {i \in 1..Len(a) : LET x == ParseSeg(a[i], Ec(e)) y == ParseSeg(b[i], Ec(e)) IN
-                                        x.name # y.name \/ LeafSeq(x) # LeafSeq(y)} IN
+  ELSE LET bad == {i \in 1..Len(a) : a[i] # b[i] /\ LET x == ParseSeg(a[i], Ec(e)) y == ParseSeg(b[i], Ec(e)) IN
+                                                       x.name # y.name \/ LeafSeq(x) # LeafSeq(y)} IN
        IF bad = {} THEN 0 ELSE CHOOSE i \in bad : \A j \in bad : i <= j
 LossVerdict(e) ==
   IF e.out_nofg = "ok" /\ ~SameContent(e, e.lines_in, e.lines_nofg) THEN "content_lost_or_reordered_without_group_finding"
